@@ -263,7 +263,7 @@ func (g *tgen) expr(d int) js_ast.Expr {
 	if d <= 0 || g.r.Chance(15) {
 		return g.leaf()
 	}
-	switch g.r.Intn(22) {
+	switch g.r.Intn(24) {
 	case 0, 1, 2, 3, 4:
 		return mk(&js_ast.EBinary{Op: g.binop(), Left: g.expr(d - 1), Right: g.expr(d - 1)})
 	case 5, 6, 7:
@@ -410,6 +410,42 @@ func (g *tgen) expr(d int) js_ast.Expr {
 			return mk(&js_ast.EIf{Test: test, Yes: y, No: n})
 		}
 		return mk(&js_ast.EBinary{Op: lop, Left: test, Right: chain})
+	case 21:
+		// comparisons with a typed operand (ExprCanBeRemovedIfUnused, SimplifyUnusedExpr)
+		typed := func() js_ast.Expr {
+			switch g.r.Intn(6) {
+			case 0:
+				return g.str()
+			case 1:
+				return mk(&js_ast.ENumber{Value: treeNums[g.r.Intn(len(treeNums))]})
+			case 2:
+				return mk(&js_ast.EBigInt{Value: treeBigs[g.r.Intn(len(treeBigs))]})
+			case 3:
+				return mk(&js_ast.EUnary{Op: js_ast.UnOpTypeof, Value: g.ident(), WasOriginallyTypeofIdentifier: true})
+			case 4:
+				return mk(&js_ast.ETemplate{Parts: []js_ast.TemplatePart{{Value: g.lit()}}})
+			default:
+				return mk(&js_ast.EUnary{Op: js_ast.UnOpNeg, Value: g.lit()})
+			}
+		}
+		other := func() js_ast.Expr {
+			switch g.r.Intn(4) {
+			case 0:
+				return typed()
+			case 1:
+				return g.ident()
+			case 2:
+				return g.lit()
+			default:
+				return g.expr(d - 1)
+			}
+		}
+		op := []js_ast.OpCode{js_ast.BinOpLt, js_ast.BinOpGt, js_ast.BinOpLe, js_ast.BinOpGe, js_ast.BinOpLooseEq, js_ast.BinOpLooseNe, js_ast.BinOpStrictEq, js_ast.BinOpAdd}[g.r.Intn(8)]
+		l, rr := typed(), other()
+		if g.r.Bool() {
+			l, rr = rr, l
+		}
+		return mk(&js_ast.EBinary{Op: op, Left: l, Right: rr})
 	default:
 		// boolean-context shapes
 		switch g.r.Intn(4) {
